@@ -44,6 +44,13 @@ def cases(tier, seed):
                     if m[l] < 0:
                         m[l] = rng.getrandbits(8)
                 cs.append({"seq": "read", "value": name, "unit": memseq.unit(kind, label, m)})
+            # text that fills the whole field and ends in spaces (no NUL): stored bytes are stored bytes
+            if width >= 8 and k == 0:
+                for pad in (1, 2, width // 2, width):
+                    m = list(base)
+                    txt = [0x41 + (j % 26) for j in range(width - pad)] + [0x20] * pad
+                    m[start:start + width] = txt
+                    cs.append({"seq": "read", "value": name, "unit": memseq.unit(kind, label, m)})
             # a hole at every position of the value
             for pos in (range(start, end + 1) if width <= 8 or tier == "thorough" else
                         sorted({start, end, rng.randrange(start, end + 1)})):
